@@ -104,6 +104,8 @@ def run(tier, seed):
     nmut = 10 if quick else 40
     prof = gen.profile(max_len=12)
     builds = harness.make_many(tc, [seed * 1000 + 77 + i for i in range(nmod)], prof, atoms=10, composites=10)
+    from ..asn import shapes
+    builds.append(harness.make(tc, seed * 1000 + 98, prof, module_fn=lambda g: shapes.build2("SH2")))
     for b in builds:
         if b.exe is None:
             chk.inconcl("module not built (%s)" % b.error[0])
@@ -113,7 +115,7 @@ def run(tier, seed):
         cases, meta = [], {}
         cid = 0
         for tname, t in b.mod.types.items():
-            for v in b.gen.values(t, 2 if quick else 4):
+            for v in (shapes.values2(b.mod, tname, rng, quick) if b.mod.name == "SH2" else b.gen.values(t, 2 if quick else 4)):
                 ref = harness.ref_der(b, t, v)
                 if ref is None:
                     continue
@@ -137,6 +139,15 @@ def run(tier, seed):
                 tree = enc_.tree(t, v_)
                 for fam, vb in (variants.ber_variants(rng, tree, 1) + variants.ber_semantic_variants(rng, b.mod, t, v_, enc_, 2))[:4]:
                     corpus[(tname, "BER")].append(vb)
+            except Exception:
+                pass
+            # the value as a peer with a later version of the type sends it (unknown extension additions): seeds that reach
+            # the extension-skipping code of the PER and OER decoders
+            try:
+                from . import refenc
+                for syn_, fam_, xb_ in refenc.reference_encodings(b.mod, t, values_by_cid[cid], rng, 2):
+                    if fam_ == "v2-sender":
+                        corpus.setdefault((tname, syn_), []).append(xb_)
             except Exception:
                 pass
             if r is None or r.status != "ok" or len(r.events) < 4:
